@@ -35,7 +35,12 @@ OkJoin(e) == LET j == JoinSeconds(e.sec, e.fs, e.bits, e.num, e.den) IN
   /\ e.den = W(1) => (e.ok = (IF j.ok THEN 1 ELSE 0) /\ (j.ok => e.c = j.count))
   \* sub-second targets: only inside their own range (the driver stays inside)
   /\ e.den # W(1) => (j.ok => (e.ok = 1 /\ e.c = j.count))
-Allowed(e) == CASE e.e = "Split" -> OkSplit(e) [] e.e = "LookupD" -> OkLookupD(e) [] e.e = "FormatD" -> OkFormatD(e)
+\* a text at distance `delta` seconds from the upper (hi = 1) or lower limit of time_point<seconds>: beyond it parse fails, at or
+\* inside it the instant is returned - independently of the zone handed to parse (the text carries its own offset)
+OkParseLimit(e) == /\ e.ub = 0
+                   /\ e.delta > 0 => e.ok = 0
+                   /\ e.delta <= 0 => (e.ok = 1 /\ e.c = (IF e.hi = 1 THEN RepMax(64) \oplus W(e.delta) ELSE RepMin(64) \ominus W(e.delta)))
+Allowed(e) == CASE e.e = "ParseLimit" -> OkParseLimit(e) [] e.e = "Split" -> OkSplit(e) [] e.e = "LookupD" -> OkLookupD(e) [] e.e = "FormatD" -> OkFormatD(e)
                 [] e.e = "ParseBack" -> OkParseBack(e) [] e.e = "Join" -> OkJoin(e) [] e.e = "ParseD" -> OkJoin(e)
                 [] OTHER -> FALSE
 Init == l = 1 /\ bad = 0
